@@ -1,6 +1,6 @@
 //! Common metaheuristic algorithm conditions, e.g. used as termination criteria.
 
-use std::ops::Sub;
+use std::{marker::PhantomData, ops::Sub};
 
 use better_any::{Tid, TidAble};
 use derivative::Derivative;
@@ -259,17 +259,22 @@ where
     }
 }
 
-/// Holds the previous value for comparison.
+/// Holds the previous value seen through the lens `L` for comparison.
 #[derive(Deref, DerefMut, Tid)]
-struct Previous<T: 'static>(Option<T>);
+struct Previous<L: 'static, T: 'static>(
+    #[deref]
+    #[deref_mut]
+    Option<T>,
+    PhantomData<fn() -> L>,
+);
 
-impl<T> Default for Previous<T> {
+impl<L, T> Default for Previous<L, T> {
     fn default() -> Self {
-        Self(None)
+        Self(None, PhantomData)
     }
 }
 
-impl<T: Send> CustomState<'_> for Previous<T> {}
+impl<L, T: Send> CustomState<'_> for Previous<L, T> {}
 
 /// Checks if two values of type `&T` are equal using some measure.
 ///
@@ -413,13 +418,13 @@ where
     L::Target: Clone + Send,
 {
     fn init(&self, _problem: &P, state: &mut State<P>) -> ExecResult<()> {
-        state.insert(Previous::<L::Target>::default());
+        state.insert(Previous::<L, L::Target>::default());
         Ok(())
     }
 
     fn evaluate(&self, problem: &P, state: &mut State<P>) -> ExecResult<bool> {
         let current = self.lens.get_ref(problem, state)?;
-        let mut previous = state.try_borrow_value_mut::<Previous<L::Target>>()?;
+        let mut previous = state.try_borrow_value_mut::<Previous<L, L::Target>>()?;
 
         let changed = if let Some(previous) = &*previous {
             !self.checker.eq(&*current, previous)
